@@ -172,3 +172,6 @@ add("half_wrong_divisor", "C10", "R10.5", "repr_div",
     [("float/src/div.rs", "            let adjust = R::round_ratio(&q, r, &rhs.significand);", "            let adjust = R::round_ratio(&q, r, &q);")])
 add("half_unshifted_den", "C06", "R06.5", "to_f32",
     [("rational/src/convert.rs", "                let half = (r << 1).cmp(&den);", "                let half = (r << 1).cmp(&self.denominator);")])
+
+add("r02_5_2by1_precondition", "C02", "R02.5", "rem_dword",
+    [("integer/src/div_const.rs", "            let hi = if hi >= d { hi - d } else { hi };\n", "            let _ = d;\n")])
